@@ -29,7 +29,7 @@ ASSUME Check("distributive",
                            /\ AMul(AAdd(a, b), c) = AAdd(AMul(a, c), AMul(b, c)))
 ASSUME Check("unit-and-scalars",
    \A a \in ValsAll : /\ AMul(a, AConst(ROne)) = a /\ AMul(AConst(ROne), a) = a
-                      /\ \A s \in 1..3 : AMul(AConst(ScalarVal(s)), a) = OpScale(ScalarVal(s), a)
+                      /\ \A s \in 1..17 : AMul(AConst(ScalarVal(s)), a) = OpScale(ScalarVal(s), a)
                                       /\ AMul(a, AConst(ScalarVal(s))) = OpScale(ScalarVal(s), a)
                       /\ AMul(a, OpZero) = OpZero)
 ASSUME Check("noncommutative-domain", \E a, b \in ValsFixed : AMul(a, b) # AMul(b, a))
